@@ -63,6 +63,7 @@ inductive Pc where
 structure Waiter where
   id : Nat
   cancel : Bool
+  before : Nat := 0              -- ghost: how many elements had been submitted when `wait()` was called
   deriving DecidableEq, Repr
 
 inductive Out where
@@ -89,6 +90,7 @@ structure St where
   outs : List Out := []
   submitted : List Nat := []               -- ghost: every element any producer will yield, in submission order
   delivered : List Nat := []               -- ghost: elements of successful calls
+  retLog : List (Nat × Nat) := []          -- ghost: for every `wait()` that returned, (its id, its `before`)
   tie : Bool := false
   daemonEnded : Bool := false              -- the background task has terminated (after a shutdown)
   shutdownPhase : Nat := 0                 -- where the shutdown's cancellation hit (0 = none yet)
@@ -106,7 +108,8 @@ def sortNat (l : List Nat) : List Nat := l.foldr insertSorted []
 /-- `event.set()`: every waiter blocked on the flag returns. -/
 def setEvent (s : St) : St :=
   { s with event := true, flaggers := [],
-           outs := s.outs ++ s.flaggers.map fun w => Out.waitRet w.id s.now }
+           outs := s.outs ++ s.flaggers.map fun w => Out.waitRet w.id s.now,
+           retLog := s.retLog ++ s.flaggers.map (fun w => (w.id, w.before)) }
 
 /-- `if cancel and self._getting and not self._getting.done(): self._getting.cancel()` -/
 def cancelGetting (s : St) (w : Waiter) : St :=
@@ -122,7 +125,7 @@ def cancelGetting (s : St) (w : Waiter) : St :=
 once if the flag is set, else block on it. -/
 def passJoin (s : St) (w : Waiter) : St :=
   let s := cancelGetting s w
-  if s.event then { s with outs := s.outs ++ [Out.waitRet w.id s.now] }
+  if s.event then { s with outs := s.outs ++ [Out.waitRet w.id s.now], retLog := s.retLog ++ [(w.id, w.before)] }
   else { s with flaggers := s.flaggers ++ [w] }
 
 /-- `q.join()` waiters are released when the unfinished count reaches zero. -/
@@ -298,7 +301,7 @@ def applyIn (s : St) (i : In) : St :=
         | none => { s with queue := s.queue ++ [p] }
     s
   | .wait _ id cancel =>
-    let w : Waiter := { id := id, cancel := cancel }
+    let w : Waiter := { id := id, cancel := cancel, before := s.submitted.length }
     if s.unfinished = 0 then passJoin s w else { s with joiners := s.joiners ++ [w] }
   | .shutdown _ => cancelDaemon (settle fuelDefault s)
 
